@@ -1466,22 +1466,36 @@ fn augment_with_lookahead(first: FirstSet, lookahead: &Lookahead) -> /*@[*/(r: /
     )
 }
 
-//@[ T: `.map(Lookahead::Terminal)` (constructor as function value) is outside the supported subset (body not verified; contract assumed)
-#[verifier::external_body]
-//@]
 fn convert_first_set_to_augmented_as_is(first: FirstSet) -> /*@[*/(r: /*@]*/AugmentedFirstSet/*@[*/)/*@]*/
-    //@[ assumed contract
+    //@[ C17 convert_first_set_to_augmented_as_is: exactly the terminals of FIRST(beta), as lookaheads
     requires first.terminals.wf(),
     ensures r.0.wf(), forall|la: Lookahead| #[trigger] r.0@.contains(la) <==> (la matches Lookahead::Terminal(t) && first.terminals@.contains(t)),
     //@]
 {
-    AugmentedFirstSet(
+    //@[ proof
+    let ghost ts = first.terminals.seq();
+    //@]
+    /*@[*/let __vx_r = /*@]*/AugmentedFirstSet(
         first
             .terminals
             .into_iter()
-            .map(Lookahead::Terminal)
+            .map(/*@{ T19_ctor*//*@- Lookahead::Terminal *//*@|*/|t: DollarlessTerminalName| -> (o: Lookahead) ensures o == Lookahead::Terminal(t) { Lookahead::Terminal(t) }/*@}*/)
             .collect(),
-    )
+    )/*@[*/;
+    proof {
+        let mapped = choose|mapped: Seq<Lookahead>| #![auto] __vx_r.0@ == mapped.to_set() && mapped.len() == ts.len()
+            && forall|i: int| 0 <= i < ts.len() ==> #[trigger] mapped[i] == Lookahead::Terminal(ts[i]);
+        assert forall|la: Lookahead| #[trigger] __vx_r.0@.contains(la) <==> (la matches Lookahead::Terminal(t) && first.terminals@.contains(t)) by {
+            if __vx_r.0@.contains(la) { let i = choose|i: int| 0 <= i < mapped.len() && mapped[i] == la; assert(first.terminals@.contains(ts[i])); }
+            if let Lookahead::Terminal(t) = la {
+                if first.terminals@.contains(t) {
+                    let i = choose|i: int| 0 <= i < ts.len() && ts[i] == t;
+                    assert(mapped[i] == la); assert(mapped.to_set().contains(mapped[i]));
+                }
+            }
+        }
+    }
+    __vx_r/*@]*/
 }
 
 //@[ C17 lemma: enumerate + find_map with this closure finds the first state with the same core
